@@ -106,6 +106,31 @@ func init() {
 	})
 }
 
+func init() {
+	// The same workload judged for crashes (C12).  An unsynchronised access
+	// to a Go map that another goroutine writes is a crash, not merely a
+	// race: the runtime ends the process with "fatal error: concurrent map
+	// read and map write" (not recoverable).  In the simulator one task runs
+	// at a time, so the runtime's check cannot fire; the race detector's
+	// report on a client's data map (setdata by one client while another
+	// joins) stands for it.
+	Register("C12", &Scenario{
+		Name:   "membership-crash",
+		Weight: 1,
+		Owns:   []string{"C12", "panic", "race:webClient.data"},
+		New:    func() any { return &confPlan{} },
+		Gen:    genMembershipPlan,
+		Cfg: func(tp *simrt.Tape, plan any) simrt.Config {
+			c := swarmCfg(tp, false)
+			c.PCTPoints = 3000
+			c.Races = true
+			return c
+		},
+		Run:    runMembership,
+		Shrink: shrinkConf,
+	})
+}
+
 func runMembership(c *Ctx, plan any) {
 	p := plan.(*confPlan)
 	w := newConfWorld(c)
